@@ -261,6 +261,9 @@ pub struct Func {
     pub interrupt: bool,
     /// emit a prototype before the first function
     pub proto: bool,
+    /// ROM bank of the function (0 = the default bank; printed as `bankN` otherwise)
+    #[serde(default)]
+    pub bank: u32,
 }
 
 #[derive(Debug, Clone, PartialEq, Serialize, Deserialize, Default)]
@@ -609,7 +612,8 @@ impl Printer {
             })
             .collect();
         format!(
-            "{}{} {}{}({})",
+            "{}{}{} {}{}({})",
+            if f.bank > 0 { format!("bank{} ", f.bank) } else { String::new() },
             if f.inline { "inline " } else { "" },
             ret,
             if f.interrupt { "interrupt " } else { "" },
